@@ -382,6 +382,36 @@ def dart_view_leg(rng, d, res):
                                       "the owner while the view is in use (element types / owned-first in this program: %s)" % (name, [(el, of) for el, of, _ in types if el])))
 
 
+def nanobind_property_leg(rng, d, res):
+    """nanobind merges a getter and a setter of one property into a single `def_prop_rw` binding; a getter that returns something borrowed
+    from `self` keeps its keep-alive annotation whichever of the two is declared first (seed C04-j: the setter's empty annotation replaced it)"""
+    order = rng.choice(["getter-first", "setter-first"])
+    ret = rng.choice(["&'a Op", "Box<OpL<'a, 'a>>", "Option<&'a Op>"])
+    get = "        #[diplomat::attr(auto, getter = \"head\")]\n        pub fn get_head<'a>(&'a self) -> %s { unimplemented!() }\n" % ret
+    set_ = "        #[diplomat::attr(auto, setter = \"head\")]\n        pub fn set_head(&mut self, v: u8) { unimplemented!() }\n"
+    body = (get + set_) if order == "getter-first" else (set_ + get)
+    dd = os.path.join(d, "nbprop")
+    os.makedirs(dd, exist_ok=True)
+    src = os.path.join(dd, "lib.rs")
+    open(src, "w").write(PRELUDE + "    #[diplomat::opaque] pub struct Buf(pub u8);\n    impl Buf {\n" + body +
+                         "        pub fn cursor<'a>(&'a self) -> &'a Op { unimplemented!() }\n    }\n}\n")
+    rc, o, e = toolrun.run_tool("nanobind", src, os.path.join(dd, "out"), config_file=os.path.join(d, "cfg_nanobind.toml"))
+    kind, det = toolrun.classify_tool(rc, e)
+    if kind != "ok":
+        res["inconc"].append("nanobind property leg: tool %s: %s" % (kind, str(det)[:200]))
+        return
+    txt = open(os.path.join(dd, "out", "vflib_ext.cpp")).read()
+    m = re.search(r'\.def_prop_rw\("head",[^;]*?\)\s*(?=\.def|;)', txt, re.S)
+    ctrl = re.search(r'\.def\("cursor",[^;]*?\)\s*(?=\.def|;)', txt, re.S)
+    res["st"]["backend_edge_lists_checked"] += 1
+    if not m or not ctrl:
+        res["inconc"].append("nanobind property leg: binding of Buf.head / Buf.cursor not found")
+        return
+    if "keep_alive<0, 1>" in ctrl.group(0) and "keep_alive<0, 1>" not in m.group(0):
+        res["viol"].append((None, "nanobind: property `head` (%s, getter returning `%s` borrowed from self) is bound without keep_alive<0, 1> although the plain method "
+                                  "`cursor` has it: `%s`" % (order, ret, re.sub(r"\s+", " ", m.group(0))[:200])))
+
+
 def main(tier, seed):
     chk = Check("C04", tier, seed, "exploration")
     thorough = tier == "thorough"
@@ -616,6 +646,7 @@ def main(tier, seed):
                             res["viol"].append((s, "js.abi=%s, V8: the wasm buffer of `%s` was handed to diplomat_free while the returned value (%s arm) is still alive and may borrow from it" % (abi, name, rec["mode"])))
             res["st"]["gc_collected_unborrowed"] += collected_unborrowed
         dart_view_leg(rng, d, res)
+        nanobind_property_leg(rng, d, res)
         return res
 
     results = pmap(one, range(nbatch))
